@@ -1,11 +1,262 @@
+import TinsModel.Ownership.Spec
 import Driver.Util
-/- line-protocol driver for property C12 (stub until the area is built) -/
+/- line-protocol driver for property C12 (ownership): model mode prints the forest of the pointer model exactly as
+   harness/c12_ownership.cpp prints the forest of the real objects; spec mode checks the forest the implementation
+   printed against the chain-level specification. -/
 namespace Driver.C12
-open Driver
+open Driver Tins.Own
 
-def step (st : Unit) (_line : String) : Unit × String := (st, "unimplemented")
-def specStep (st : Unit) (_line : String) : Unit × String := (st, "unimplemented")
-def initModel : Unit := ()
-def initSpec : Unit := ()
+def nat? (s : String) : Option Nat := s.toNat?
+
+def parseOp (ws : List String) : Option Op :=
+  match ws with
+  | ["init", n] => do pure (.init (← nat? n))
+  | ["end"] => some .fin
+  | ["new", s, c, k, v] => do pure (.new (← nat? s) (← nat? c) (← nat? k) (← nat? v))
+  | ["set", s, d, v] => do pure (.set ⟨← nat? s, ← nat? d⟩ (← nat? v))
+  | ["clone", s, a, d] => do pure (.clone (← nat? s) ⟨← nat? a, ← nat? d⟩)
+  | ["copy", s, a, d] => do pure (.clone (← nat? s) ⟨← nat? a, ← nat? d⟩)     -- `new T(*p)`: what clone() is
+  | ["movector", s, a, d] => do pure (.movector (← nat? s) ⟨← nat? a, ← nat? d⟩)
+  | ["div", s, a, d, b, e] => do pure (.div (← nat? s) ⟨← nat? a, ← nat? d⟩ ⟨← nat? b, ← nat? e⟩)
+  | ["diveq", a, d, b, e] => do pure (.diveq ⟨← nat? a, ← nat? d⟩ ⟨← nat? b, ← nat? e⟩)
+  | ["assign", a, d, b, e] => do pure (.assign ⟨← nat? a, ← nat? d⟩ ⟨← nat? b, ← nat? e⟩)
+  | ["massign", a, d, b, e] => do pure (.massign ⟨← nat? a, ← nat? d⟩ ⟨← nat? b, ← nat? e⟩)
+  | ["setinner", a, d, s] => do pure (.setinner ⟨← nat? a, ← nat? d⟩ (← nat? s))
+  | ["setinnerref", a, d, b, e] => do pure (.setinnerref ⟨← nat? a, ← nat? d⟩ ⟨← nat? b, ← nat? e⟩)
+  | ["setnull", a, d] => do pure (.setnull ⟨← nat? a, ← nat? d⟩)
+  | ["release", s, a, d] => do pure (.release (← nat? s) ⟨← nat? a, ← nat? d⟩)
+  | ["del", s] => do pure (.del (← nat? s))
+  | ["pknew", s, a, d] => do pure (.pknew (← nat? s) ⟨← nat? a, ← nat? d⟩)
+  | ["pkown", s, t] => do pure (.pkown (← nat? s) (← nat? t))
+  | ["pkptr", s, t] => do pure (.pkown (← nat? s) (← nat? t))                 -- Packet(const PtrPacket&) adopts likewise
+  | ["pkempty", s] => do pure (.pkempty (← nat? s))
+  | ["pkcopy", s, p] => do pure (.pkcopy (← nat? s) (← nat? p))
+  | ["pkassign", p, q] => do pure (.pkassign (← nat? p) (← nat? q))
+  | ["pkmove", s, p] => do pure (.pkmove (← nat? s) (← nat? p))
+  | ["pkmassign", p, q] => do pure (.pkmassign (← nat? p) (← nat? q))
+  | ["pkrelease", s, p] => do pure (.pkrelease (← nat? s) (← nat? p))
+  | ["pkdiv", p, b, e] => do pure (.pkdiv (← nat? p) ⟨← nat? b, ← nat? e⟩)
+  | ["onew", i, c, l, f] => do pure (.onew (← nat? i) (← nat? c) (← nat? l) (← nat? f))
+  | ["ocopy", i, j] => do pure (.ocopy (← nat? i) (← nat? j))
+  | ["omove", i, j] => do pure (.omove (← nat? i) (← nat? j))
+  | ["oassign", i, j] => do pure (.oassign (← nat? i) (← nat? j))
+  | ["omassign", i, j] => do pure (.omassign (← nat? i) (← nat? j))
+  | ["odel", i] => do pure (.odel (← nat? i))
+  | _ => none
+
+def isOptOp : Op → Bool
+  | .onew .. | .ocopy .. | .omove .. | .oassign .. | .omassign .. | .odel .. => true
+  | _ => false
+
+def showOpts (status : String) (opts : List (Option Opt)) : String :=
+  opts.foldl (fun acc o => acc ++ " | " ++ match o with
+    | none => "-"
+    | some o => s!"{o.code}:{o.size}:{toHex (o.data.map UInt8.ofNat)}") status
+
+/-! ### model mode -/
+
+structure MState where
+  st : State := {}
+  ids : List (Addr × Nat) := []      -- display identities of the reachable layers
+  nextId : Nat := 0
+
+/-- the layers reachable from a handle by `->inner_pdu()` -/
+def chainNodes (h : Heap) : Nat → Option Addr → List (Addr × Node)
+  | 0, _ => []
+  | _ + 1, none => []
+  | fuel + 1, some a =>
+    match h.get a with
+    | none => []
+    | some n => (a, n) :: chainNodes h fuel n.inner
+
+def lookupId (m : List (Addr × Nat)) (a : Addr) : Option Nat := (m.find? (·.1 == a)).map (·.2)
+
+def showForest (status : String) (m : MState) : MState × String :=
+  let h := m.st.heap
+  let chains := m.st.slots.map (fun s => match s with
+    | none => none
+    | some (.pdu a) => some ("P", chainNodes h (h.cells.length + 1) (some a))
+    | some (.pkt p) => some ("K", chainNodes h (h.cells.length + 1) p))
+  -- display identities in traversal order; layers no longer reachable are forgotten
+  let (now, next) := chains.foldl (fun acc c => match c with
+    | none => acc
+    | some (_, ns) => ns.foldl (fun (acc : List (Addr × Nat) × Nat) an =>
+        match lookupId acc.1 an.1 with
+        | some _ => acc
+        | none => match lookupId m.ids an.1 with
+          | some i => (acc.1 ++ [(an.1, i)], acc.2)
+          | none => (acc.1 ++ [(an.1, acc.2)], acc.2 + 1)) acc) ([], m.nextId)
+  let showChain (ns : List (Addr × Node)) : String :=
+    let rec go (above : Option Addr) : List (Addr × Node) → List String
+      | [] => []
+      | (a, n) :: r =>
+        let par := match n.parent with
+          | none => "n"
+          | some p => if some p == above then "u" else match lookupId now p with
+            | some i => s!"x{i}"
+            | none => "?"
+        s!"{(lookupId now a).getD 0}:{n.view.cls}:{n.view.kind}:{n.view.val}:{par}" :: go (some a) r
+    joinWith "," (go none ns)
+  let body := chains.foldl (fun acc c => acc ++ " | " ++ match c with
+    | none => "-"
+    | some (k, ns) => s!"{k}[{showChain ns}]") ""
+  ({ m with ids := now, nextId := next }, s!"{status} live={h.live} ser=11{body}")
+
+/-- `assignraw a b`: copy assignment WITHOUT the well-formedness guard, executed literally on the pointer model
+    (used only to reproduce the recorded finding that assigning from a layer the target owns reads destroyed storage) -/
+def stepAssignRaw (m : MState) (a b : Ref) : MState × String :=
+  match resolve m.st a, resolve m.st b with
+  | some x, some y =>
+    let h' := if classEq m.st.heap x y then assignSame m.st.heap x y else assignBase m.st.heap x y
+    if h'.faults > m.st.heap.faults then (m, "FAULT model: the source layer is destroyed before its members are copied")
+    else showForest "ok" { m with st := { m.st with heap := h' } }
+  | _, _ => showForest "illformed" m
+
+def step (m : MState) (line : String) : MState × String :=
+  match words line with
+  | ["assignraw", a, d, b, e] =>
+    match nat? a, nat? d, nat? b, nat? e with
+    | some a, some d, some b, some e => stepAssignRaw m ⟨a, d⟩ ⟨b, e⟩
+    | _, _, _, _ => (m, "bad-op")
+  | _ =>
+  match parseOp (words line) with
+  | none => (m, "bad-op")
+  | some op =>
+    match Tins.Own.step m.st op with
+    | none => if isOptOp op then (m, showOpts "illformed" m.st.opts) else showForest "illformed" m
+    | some st' =>
+      if isOptOp op then ({ m with st := st' }, showOpts "ok" st'.opts)
+      else
+        let status := match op with | .init _ => "init" | .fin => "end" | _ => "ok"
+        let m' := match op with
+          | .init _ => { st := st', ids := [], nextId := 0 }
+          | _ => { m with st := st' }
+        showForest status m'
+
+def initModel : MState := {}
+
+/-! ### spec (oracle) mode -/
+
+structure OState where
+  prev : AState := {}
+  maxId : Nat := 0          -- identities below this have been seen (fresh ones must not be)
+  started : Bool := false
+
+structure PNode where
+  id : Nat
+  view : View
+  par : String
+
+def parseNode (s : String) : Option PNode :=
+  match s.splitOn ":" with
+  | [i, c, k, v, p] => do pure ⟨← nat? i, ⟨← nat? c, ← nat? k, ← nat? v⟩, p⟩
+  | _ => none
+
+/-- `-` | `P[...]` | `K[...]` -/
+def parseSlot (s : String) : Option (Option (SKind × List PNode)) :=
+  if s == "-" then some none else
+  let kind? := if s.startsWith "P[" then some SKind.pdu else if s.startsWith "K[" then some SKind.pkt else none
+  match kind? with
+  | none => none
+  | some k =>
+    if !s.endsWith "]" then none else
+    let body := ((s.drop 2).dropEnd 1).toString
+    if body == "" then some (some (k, [])) else
+    match (body.splitOn ",").mapM parseNode with
+    | some ns => some (some (k, ns))
+    | none => none
+
+def parseOpt (s : String) : Option (Option Opt) :=
+  if s == "-" then some none else
+  match s.splitOn ":" with
+  | [c, z, h] => do
+    let d ← parseHex h
+    pure (some ⟨← nat? c, ← nat? z, d.map (·.toNat)⟩)
+  | _ => none
+
+def kvNat (ws : List String) (key : String) : Option Nat :=
+  ws.findSome? (fun w => if w.startsWith (key ++ "=") then (w.drop (key.length + 1)).toString.toNat? else none)
+
+def kvStr (ws : List String) (key : String) : Option String :=
+  ws.findSome? (fun w => if w.startsWith (key ++ "=") then some (w.drop (key.length + 1)).toString else none)
+
+/-- compare the observed forest with the specified one: same shape, kinds and fields; layers the specification keeps
+    keep their identity; layers it creates carry identities never seen before -/
+def matchForest (maxId : Nat) (specNext : Nat) (exp : List (Option ASlot)) (got : List (Option (SKind × List PNode))) : Bool :=
+  exp.length == got.length &&
+  (exp.zip got).all (fun eg => match eg with
+    | (none, none) => true
+    | (some e, some (k, ns)) =>
+      e.kind == k && e.chain.length == ns.length &&
+      (e.chain.zip ns).all (fun en =>
+        en.1.2 == en.2.view &&
+        (if en.1.1 < specNext then en.2.id == en.1.1 else decide (maxId ≤ en.2.id)))
+    | _ => false)
+
+def nodup (l : List Nat) : Bool :=
+  match l with
+  | [] => true
+  | x :: r => !(r.contains x) && nodup r
+
+def specStep (o : OState) (line : String) : OState × String :=
+  match line.trimAscii.toString.splitOn " ||| " with
+  | [opS, out] =>
+    match parseOp (words opS) with
+    | none => (o, "unspecified")
+    | some op =>
+      if out.startsWith "FAULT" || out == "SKIP" then ({ o with started := false }, "unspecified") else
+      if out.startsWith "throw" then (o, "violates no-exception " ++ out) else
+      let parts := out.splitOn " | "
+      let head := words (parts.headD "")
+      let status := head.headD ""
+      if isOptOp op then
+        if !o.started then (o, "unspecified") else
+        match (parts.drop 1).mapM parseOpt with
+        | none => (o, "violates unparsable-output")
+        | some got =>
+          match o.prev.step op with
+          | none =>
+            if status == "illformed" && got == o.prev.opts then (o, "ok") else (o, "violates option-wellformedness")
+          | some E =>
+            if status != "ok" then (o, "violates option-wellformedness")
+            else if got == E.opts then ({ o with prev := E }, "ok")
+            else ({ o with prev := { E with opts := got } }, "violates option-value-semantics")
+      else
+      match (parts.drop 1).mapM parseSlot, kvNat head "live", kvStr head "ser" with
+      | some got, some live, some ser =>
+        let nodes := (got.filterMap id).flatMap (·.2)
+        let ids := nodes.map (·.id)
+        let base := match op with | .init _ => 0 | _ => o.maxId
+        let obs : AState := { slots := got.map (fun g => g.map (fun kn => ⟨kn.1, kn.2.map (fun n => (n.id, n.view))⟩)),
+                              next := ids.foldl (fun m i => max m (i + 1)) base,
+                              opts := o.prev.opts }
+        let o' : OState := { prev := obs, maxId := obs.next, started := true }
+        let parentOK := (got.filterMap id).all (fun kn => match kn.2 with
+          | [] => true
+          | n :: r => n.par == "n" && r.all (·.par == "u"))
+        -- clauses on the observed forest alone
+        if !nodup ids then (o', "violates unique-owner") else
+        if !parentOK then (o', "violates parent-link") else
+        if live != nodes.length then (o', s!"violates freed-exactly-once live={live} reachable={nodes.length}") else
+        match op with
+        | .init n =>
+          if status == "init" && got.length == n && got.all Option.isNone then ({ o' with prev := { obs with opts := List.replicate n none } }, "ok")
+          else (o', "violates init-empty")
+        | _ =>
+          if !o.started then (o', "unspecified") else
+          match o.prev.step op with
+          | none =>
+            if status == "illformed" && matchForest o.maxId o.prev.next o.prev.slots got then (o', "ok")
+            else (o', "violates wellformedness-guard")
+          | some E =>
+            if status != "ok" && status != "end" then (o', "violates wellformedness-guard")
+            else if !matchForest o.maxId o.prev.next E.slots got then (o', s!"violates op-post {(words opS).headD ""}")
+            else if ser.toList.head? != some '1' then (o', "violates copy-serialization-equal")
+            else if ser.toList.drop 1 != ['1'] then (o', "violates independence-serialization")
+            else ({ o' with prev := { obs with opts := E.opts } }, "ok")
+      | _, _, _ => (o, "violates unparsable-output")
+  | _ => (o, "bad-line")
+
+def initSpec : OState := {}
 
 end Driver.C12
